@@ -101,6 +101,39 @@ def run(rep, work, rng, tier):
         lines = [l.replace('frame 0 - 1 x6d31 3f8ccccd', 'frame 0 - 1 x6d31 3f8ccccd') for l in lines]
         cases.append((cid, lines[:-1] + ['save 0 %s.c3d' % cid, 'load 1 %s.c3d' % cid, 'snap 1']))
     kinds['alignment-sweep'] = 768
+    # (1) a stored frame REPLACED by one that adds the kind of data the object did not have yet (POINT:USED = 0, or ANALOG:USED = 0
+    #     under a header that announces no sub-frame, accept any count): the counts must follow at once, the file must reload alike
+    for k in range(6):
+        chans = [b'wc%d' % j for j in range(rng.choice([1, 2]))]; pts = [b'wp%d' % j for j in range(rng.choice([1, 2, 3]))]
+        # (the symmetric case — channels added under ANALOG:USED = 0 — needs rates that announce NO sub-frame, i.e. an analog rate
+        # below the point rate: such an object is outside the property's quantifier "sub-frames per frame 1..N"; it was generated
+        # at first and flagged on the unchanged tree, a false alarm of the generator, removed)
+        lines = ['new 0'] + ['analog 0 ' + hx(x) for x in chans] + ['P.new x52415445 x', 'P.set F 0 1 42c80000', 'param 0 x504f494e54', 'P.new x52415445 x', 'P.set F 0 1 43480000', 'param 0 x414e414c4f47']
+        lines += ['frame 0 - ' + apihist.rand_lit(rng, [], chans, 2).text()] * rng.choice([1, 1, 2])
+        lines += ['frame 0 0 ' + apihist.rand_lit(rng, pts, chans, 2).text()]
+        cid = 'wr%d' % k
+        cases.append((cid, lines + ['snap 0', 'save 0 %s.c3d' % cid, 'fsum %s.c3d' % cid, 'load 1 %s.c3d' % cid, 'snap 1'])); kinds['replacement-adds-a-kind-of-data'] = kinds.get('replacement-adds-a-kind-of-data', 0) + 1
+    # (2) the groups and parameters other programs give a meaning to (TRIAL:ACTUAL_START_FIELD / ACTUAL_END_FIELD consistent with the
+    #     number of frames, EVENT, SUBJECTS ...): for this library they are parameters like any others
+    for k in range(8):
+        b = conforming_history(rng, max_frames=rng.choice([2, 5, 10]), snap=False, with_cols=False); lines = b.lines[:-1] if b.lines[-1] == 'snap 0' else list(b.lines)
+        nf = max(1, b.sh.nframes); st = rng.choice([1, 2, 101, 1000])
+        def P(name, setl, g): return ['P.new %s x' % hx(name), setl, 'param 0 ' + hx(g)]
+        lines += P(b'ACTUAL_START_FIELD', 'P.set I 1 2 2 %d 0' % st, b'TRIAL') + P(b'ACTUAL_END_FIELD', 'P.set I 1 2 2 %d 0' % (st + nf - 1), b'TRIAL') + P(b'CAMERA_RATE', 'P.set F 0 1 42c80000', b'TRIAL')
+        lines += P(b'USED', 'P.set I 0 1 2', b'EVENT') + P(b'LABELS', 'P.set S 1 2 2 %s %s' % (hx(b'FS'), hx(b'FO')), b'EVENT') + P(b'TIMES', 'P.set F 2 2 2 4 00000000 3f800000 00000000 40000000', b'EVENT')
+        lines += P(b'USED', 'P.set I 0 1 1', b'SUBJECTS') + P(b'NAMES', 'P.set S 1 1 1 %s' % hx(b'Anon'), b'SUBJECTS') + P(b'LONG_FRAMES', 'P.set I 0 1 %d' % nf, b'POINT' if rng.random() < 0.3 else b'TRIAL')
+        cid = 'vv%d' % k
+        cases.append((cid, lines + ['snap 0', 'save 0 %s.c3d' % cid, 'fsum %s.c3d' % cid, 'load 1 %s.c3d' % cid, 'snap 1'])); kinds['vendor-vocabulary'] = kinds.get('vendor-vocabulary', 0) + 1
+    # (3) the largest parameter section the format can describe (254 / 255 blocks: the data start beyond block 255) WITH data after it
+    for v in (254, 255):
+        lines = ['new 0', 'point 0 x61', 'P.new x52415445 x', 'P.set F 0 1 42c80000', 'param 0 x504f494e54'] + ['frame 0 - 1 x61 3dcccccd 40000000 40400000 3c23d70a 0', 'frame 0 - 1 x61 3f8ccccd c0000000 40400000 00000000 0']
+        size = 4 + 330; k = 0
+        while True:
+            rec = 2 + 4 + 2 + 1 + 1 + 2 + 1 + 255
+            if (size + rec + 511) // 512 > v: break
+            lines += ['P.new %s %s' % (hx(b'F%03d' % (k % 1000)), hx(b'f' * 255)), 'P.set I 0 1 1', 'param 0 ' + hx(b'G%02d' % (k // 500))]; size += rec; k += 1
+        cid = 'pb%d' % v
+        cases.append((cid, lines + ['snap 0', 'save 0 %s.c3d' % cid, 'fsum %s.c3d' % cid, 'load 1 %s.c3d' % cid, 'snap 1'])); kinds['parameter-section-of-%d-blocks-with-data' % v] = 1
     sel = lambda ln: ln.split(' ', 1)[0] in ('save', 'fsum', 'load', 'snap')
     (c, _), (m, _), nd = common.correspondence(rep, work, cases, select=sel, label='saved bytes and reloaded object')
     bad = 0; compared = 0; comps = {}
